@@ -489,6 +489,7 @@ func genCrash(c *Case, r *simrt.Rand, tier string) {
 	cfg.reopen = 4
 	cfg.drainW = 14
 	cfg.kids = 0.3
+	cfg.partial = 0.3
 	genSingle(c, r, cfg)
 	c.Opts.KeepFiles = false
 	c.Flags["tier-"+tier] = true
